@@ -606,6 +606,30 @@ def run(tier: str) -> Run:
     eff.solve()
     s_ = eff.summaries[rfi.fq]
     r6.check(not s_.mutates, 'input not written', loc(rfi), {'writes_to': sorted(s_.mutates)}, key='no-mutation')
+
+    # ---- R9: a fit does not depend on the fits made before it ------------------------------------------------------------
+    r9 = run.rule('R9', 'the result for a spectrum does not depend on the spectra fitted before it: two fit_peaks calls in one world (module-level '
+                        'tables, caches and decorator closures persist), same grid and window, other data, with the comparison fits programmed to '
+                        'come out the other way round: the assessment of the second call is the one of a fresh interpreter', 4)
+    hist = [((), ('background_is_better',)), (('background_is_better',), ()), ((), ('p_too_small',)), (('peak_points_down',), ())]
+
+    def one_fit(w, violate, tag):
+        data = w.data(9, name=tag, grid=tuple(100 + g_ for g_ in (0, F(1, 2), 1, F(3, 2), 2, 4, 6, 8, 10)))
+        peak, bkg = steer(w, violate=violate, loc_val=F(106))
+        window = w.model.array(w.it, [w.scalar('wlo', ANG, 99), w.scalar('whi', ANG, 200)], 'range')
+        kind, res = fit_through_public(w, repo, data, peaks=peak, bkgs=bkg, window=window,
+                                       requirements=requirements(repo, max_peak_width_factor=0.5, min_peak_width_factor=2.0))
+        if kind == 'return' and isinstance(res, list) and len(res) == 1 and isinstance(res[0], SObj):
+            return assessment_name(res[0].attrs.get('assessment'))
+        return (kind, repr(res)[:80])
+    for first, second in hist:
+        fresh9 = one_fit(World(repo), second, 'z')
+        w = World(repo)
+        one_fit(w, first, 'y')
+        w.it.end_of_call()
+        got9 = one_fit(w, second, 'z')
+        r9.check(got9 == fresh9, f'violated {list(second) or "nothing"} after a spectrum with {list(first) or "nothing"} violated', ffi_loc,
+                 {'fresh': fresh9, 'after_the_first_spectrum': got9}, key=f'history:{"+".join(second) or "success"}')
     return run
 
 
